@@ -23,6 +23,11 @@ HDRS = [
     (b'Connection', b'keep-alive', b'Connection: keep-alive'),
     (b'User-Agent', b'ua/1.0', b'User-Agent: ua/1.0'),
     (b'Cookie', b'a=1; b=2', b'Cookie: a=1; b=2'),
+    (b'X-Tab', b'v\tw', b'X-Tab:\tv\tw\t'),                       # 11: tabs as optional whitespace and inside the value
+    (b'X-Spaces', b'a  b   c', b'X-Spaces: a  b   c'),             # 12: internal runs of spaces are part of the value
+    (b'X-Long', b'L' * 3000, b'X-Long: ' + b'L' * 3000),           # 13: longer than a small receive buffer
+    (b'X-A', b'1', b'X-A: 1'), (b'X-AB', b'2', b'X-AB: 2'),        # 14, 15: one name is a prefix of the other
+    (b'X-Look', b'Content-Length: 5', b'X-Look: Content-Length: 5'),  # 16: framing look-alike inside a value
 ]
 BODIES = [b'', b'a', b'abc', b'\x00\xff\r\n', b'0\r\n\r\n', b'x' * 70]
 
@@ -33,7 +38,8 @@ def corpus(tier):
     thorough = tier == 'thorough'
     hsets = [[HDRS[0]], [HDRS[0], HDRS[2]], [HDRS[0], HDRS[1], HDRS[3]], [HDRS[0], HDRS[6], HDRS[7]],
              [HDRS[0], HDRS[4], HDRS[5]], [HDRS[0], HDRS[8], HDRS[9], HDRS[10]],
-             [HDRS[0], HDRS[1], HDRS[7], HDRS[6]]]
+             [HDRS[0], HDRS[1], HDRS[7], HDRS[6]],
+             [HDRS[0], HDRS[11], HDRS[12], HDRS[16]], [HDRS[0], HDRS[14], HDRS[15], HDRS[13]]]
     if thorough:
         hsets += [[HDRS[0]] + list(c) for c in itertools.combinations(HDRS[1:], 2)][::6]
     for mi, m in enumerate(METHODS):
